@@ -136,8 +136,59 @@ def run(ctx):
                 if diff:
                     ctx.violation(f'{driver}-{name.replace(" ", "_").replace("#", "n")}.json', dict(driver=driver, plan=plan, exit=r.cls, stderr=r.stderr[-300:], diff=diff[:10]),
                                   f'C03: with plan {plan} a source or bystander changed: {diff[0]}')
+        # ---- (d) the alias scenarios again, with each of the run's PROBES (stat family: not a mutating call) failing once: a
+        # probe that cannot be answered must never be read as "different file" / "absent" in a way that destroys a source
+        import subprocess
+        probe_scs = [sc for sc in alias_scenarios() if sc.alias.startswith(('a sub-directory of the target', 'a nested destination entry is a symbolic link', 'special file into', 'target directory entry is a symbolic link'))]
+        for i, sc in enumerate(probe_scs if not ctx.quick else probe_scs[:8]):
+            root = base + '/R'
+            subprocess.run(f'rm -rf {root}', shell=True); os.makedirs(root)
+            treerun.materialise(root, sc)
+            argv = treerun.argv(root, sc)
+            r0 = scen.run_xcp(base + '/aux', argv, cwd=treerun.real(root, sc.cwd), timeout=30, trace=True)
+            nstat = {}
+            for e in r0.trace:
+                if e['sys'] in ('statx', 'newfstatat', 'lstat', 'stat'):
+                    nstat[e['sys']] = nstat.get(e['sys'], 0) + 1
+            targets = [(sysn, '*', k) for sysn, cnt in nstat.items() for k in range(1, min(cnt, 10 if ctx.quick else 40) + 1)]
+            # … and the probes of the special file's own paths, one by one (the same-file test of a FIFO stats source and destination)
+            targets += [(sysn, nm, k) for sysn in nstat for nm in ('fifo', 'lnk', 'sub') for k in range(1, 7)]
+            for sysn, pth, k in targets:
+                for _once in (1,):
+                    subprocess.run(f'rm -rf {root}', shell=True); os.makedirs(root)
+                    treerun.materialise(root, sc)
+                    before = scen.snapshot(root)
+                    plan = [f'fail {sysn} {pth} {k} {E["EIO"]}']
+                    r = scen.run_xcp(base + '/aux', argv, cwd=treerun.real(root, sc.cwd), plan=plan, timeout=30)
+                    after = scen.snapshot(root)
+                    ctx.count('plan.probe-fault'); ctx.count(f'exit.{r.cls}'); ctx.case(('probe-fault', sc.alias, sc.driver, tuple(sc.paths), k, sysn, pth), True)
+                    diff = protected_diff(before, after, [])
+                    if r.cls == 'hang':
+                        diff.append('hung')
+                    if diff:
+                        ctx.violation(f'probe-{i}-{sysn}-{pth.replace("*", "any")}-{k}.json', dict(alias=sc.alias, argv=[repr(x) for x in argv], plan=plan, exit=r.cls, stderr=r.stderr[-300:], diff=diff[:10]),
+                                      f'C03: "{sc.alias}" with the {k}th {sysn} failing (EIO) modified an existing object: {diff[0]}')
+        # ---- (e) bystanders that LOOK like backups: an existing `name.~N~` that is a symbolic link or a FIFO is a version too
+        for driver in ('parfile', 'parblock'):
+            for mode in ('numbered', 'auto'):
+                sc = treerun.Scn(); sc.driver = driver
+                sc.d(b'/W').d(b'/W/store').f(b'/W/store/v1').d(b'/W/S').f(b'/W/S/f').d(b'/W/D').f(b'/W/D/f').l(b'/W/D/f.~1~', b'../store/v1').s(b'/W/D/f.~2~', 'fifo').f(b'/W/D/other')
+                sc.paths = [b'S/f', b'D/f']; sc.extra = [f'--backup={mode}']
+                root = base + '/R'
+                subprocess.run(f'rm -rf {root}', shell=True); os.makedirs(root)
+                treerun.materialise(root, sc)
+                before = scen.snapshot(root)
+                argv = treerun.argv(root, sc)
+                for rep in range(2):            # twice: the second overwrite must not reuse a number either
+                    r = scen.run_xcp(base + '/aux', argv, cwd=treerun.real(root, sc.cwd), timeout=30)
+                after = scen.snapshot(root)
+                ctx.count('plan.backup-lookalike'); ctx.count(f'exit.{r.cls}'); ctx.case(('backup-lookalike', driver, mode), True)
+                diff = protected_diff(before, after, [b'W/D/f'])
+                if diff:
+                    ctx.violation(f'backup-lookalike-{driver}-{mode}.json', dict(argv=[repr(x) for x in argv], exit=r.cls, stderr=r.stderr[-300:], diff=diff[:10]),
+                                  f'C03: overwriting D/f with --backup={mode} twice changed a bystander: {diff[0]}')
     ctx.cov['rule'] = ('alias table (other spelling, own directory, dir/../f, symlink, hard link, directory via symlink, absolute root link, link back into the source, .., special file) x '
-                       'position x driver; then for a valid tree copy: SIGKILL before/after every mutating call and EIO/ENOSPC (thorough: 6 errnos) at every mutating call. '
+                       'position x driver; then for a valid tree copy: SIGKILL before/after every mutating call and EIO/ENOSPC (thorough: 6 errnos) at every mutating call; each stat-family probe of the aliased scenarios failing once; bystanders named like backups (link, FIFO). '
                        'distinct = distinct (scenario, plan)')
     ctx.assumptions += ['SIGKILL leaves exactly the effects of completed calls', 'atime is not compared']
 
